@@ -126,6 +126,66 @@ func (h *connHandler) Sub(ctx context.Context, token int, n int) (<-chan int, er
 	return ch, nil
 }
 
+// stream elements that are not scalars: every element must be decoded into a fresh value on the client
+type cpElem struct {
+	Seq    int
+	Tags   []string       `json:",omitempty"`
+	Attrs  map[string]int `json:",omitempty"`
+	Parent *int           `json:",omitempty"`
+}
+
+func mkElem(v int) cpElem {
+	e := cpElem{Seq: v}
+	switch v % 3 {
+	case 0:
+		p := v
+		e.Tags, e.Attrs, e.Parent = []string{"a", "b", fmt.Sprint(v)}, map[string]int{"x": v}, &p
+	case 1:
+		e.Attrs = map[string]int{"y": 2, fmt.Sprint("k", v): v}
+	case 2:
+		p := -v
+		e.Tags, e.Parent = []string{"g"}, &p
+	}
+	return e
+}
+
+// SubS is Sub with struct elements (same observation points; the element's Seq plays the part of the value)
+func (h *connHandler) SubS(ctx context.Context, token int, n int) (<-chan cpElem, error) {
+	h.env.tr.ev("h.start", token, "sub")
+	h.env.execs.Store(token, h.env.execCount(token)+1)
+	ch := make(chan cpElem, h.env.subBuf)
+	hold := h.env.holdOf(token)
+	go func() {
+		defer func() {
+			h.env.tr.ev("prod.close", token)
+			close(ch)
+		}()
+		for i := 0; i < n; i++ {
+			v := token*1000 + i
+			if h.env.prodGate != nil {
+				h.env.prodGate(token, i)
+			}
+			h.env.tr.ev("prod.try", token, v)
+			select {
+			case ch <- mkElem(v):
+				h.env.tr.ev("prod.send", token, v)
+			case <-ctx.Done():
+				h.env.tr.ev("h.ctxdone", token)
+				return
+			}
+		}
+		if hold != nil {
+			select {
+			case <-hold:
+			case <-ctx.Done():
+				h.env.tr.ev("h.ctxdone", token)
+			}
+		}
+	}()
+	h.env.tr.ev("h.end", token, ctx.Err() != nil)
+	return ch, nil
+}
+
 type connClient struct {
 	Echo     func(ctx context.Context, token int) (int, error)
 	Retry    func(ctx context.Context, token int) (int, error) `retry:"true"`
@@ -135,6 +195,7 @@ type connClient struct {
 	WaitCtx  func(ctx context.Context, token int) (int, error)
 	NoteWait func(ctx context.Context, token int) error `notify:"true"`
 	Sub      func(ctx context.Context, token int, n int) (<-chan int, error)
+	SubS     func(ctx context.Context, token int, n int) (<-chan cpElem, error)
 }
 
 type callRec struct {
@@ -212,6 +273,7 @@ type connOpts struct {
 	backoffMin  time.Duration
 	backoffMax  time.Duration
 	srvPing     time.Duration
+	clientCtx   context.Context // context handed to the client constructor (nil: Background)
 }
 
 func newConnEnv(o connOpts) *connEnv {
@@ -236,7 +298,11 @@ func newConnEnv(o connOpts) *connEnv {
 	if o.errors {
 		copts = append(copts, jsonrpc.WithErrors(jsonrpc.NewErrors()))
 	}
-	closer, err := jsonrpc.NewMergeClient(context.Background(), "ws://"+e.proxy.addr(), "C", []interface{}{&e.cl}, nil, copts...)
+	cctx := o.clientCtx
+	if cctx == nil {
+		cctx = context.Background()
+	}
+	closer, err := jsonrpc.NewMergeClient(cctx, "ws://"+e.proxy.addr(), "C", []interface{}{&e.cl}, nil, copts...)
 	if err != nil {
 		panic(err)
 	}
